@@ -631,6 +631,9 @@ def c08(ctx, api):
                                          timeout=1500, harness_args=['-timeout', '600s'])
     acc.add('GenTSweep failing-call families: the category of a fault whose text (pad string, function or variable name, argument list, input) '
             'has n characters / elements, every n = 0..%d' % (9000 if thorough else 1100), st, summ)
+    tv = api['run_trace_validation'](ctx, 'mutation-traces', 6000 if thorough else 1500, ctx['seed'] + 202, corpus=False, mode='mutate')
+    acc.add_traces('trace validation: randomly grown expressions with one to three small edits run through the real Search; TLC checks the recorded category '
+                   '(syntax and nothing else for a text outside the grammar, whatever calls or slices it contains)', tv)
     return acc.result(RULE_PINNED + '; on every failing call the harness also requires a nil result, exactly one matching exported '
                       'category under errors.Is, and that the error formats',
                       extra={'model_checks': ['SingleCategory', 'StaticIgnoresDoc', 'StaticAtCompile']})
@@ -717,6 +720,8 @@ def c14(ctx, api):
     acc.add('GenNum: 17 numerals of every length and exponent (inside and outside the decimal128 range) kept at full precision through 15 non-computing '
             'forms; 41 spellings of 6 values (E / e, signed and zero-padded exponents, trailing zeros, shifted point) under 27 numeric functions and operators, '
             'each paired with the canonical spelling', st, summ)
+    st, summ = api['run_tlc_to_harness'](ctx, 'probe', 'GenProbe', cfg(constants={'Emit': 'TRUE', 'Prop': '"C14"'}), timeout=1500, harness_args=['-timeout', '30s'])
+    acc.add('GenProbe: single inputs with a pinned outcome from the audit rounds (to_string of a float64 / float32 that holds 2^60 / 2^30 exactly, with controls in the other carriers)', st, summ)
     return acc.result(RULE_PINNED + '; assignments whose Go kind cannot hold a value exactly are skipped (counted in cases_skipped)',
                       extra={'cases_skipped_carrier_cannot_hold_value': sum(s.get('skipped', 0) for s in [summ])})
 
@@ -799,11 +804,17 @@ def c03(ctx, api):
     acc.add('GenSweep: 40 token families (raw / JSON / quoted literals with 1-4-byte characters and escapes, blanks, identifiers, ill-formed '
             'and unterminated literals) at EVERY repetition count 0..%d, i.e. every byte alignment across 512 .. 32768-byte boundaries; '
             'Search and Compile at each length (expected outcome a function of n, SweepLemma)' % (9000 if thorough else 1100), st, summ)
-    st, summ = api['run_tlc_to_harness'](ctx, 'tsweep', 'GenTSweep', cfg(constants={'Emit': 'TRUE', 'Prop': '"C03"', 'Only': '{"err-", "chain-", "s-", "sl-"}', 'To': 9000 if thorough else 1100}),
+    st, summ = api['run_tlc_to_harness'](ctx, 'align', 'GenAlign', cfg(constants={'Emit': 'TRUE', 'Prop': '"C03"', 'MaxK': 34 if thorough else 26}), timeout=1500)
+    acc.add('GenAlign: one multi-byte character at every offset of an ASCII string under 37 position-sensitive operations, and the characters whose '
+            'upper / lower case counterpart has another encoded width under 13 operations (a panic is outside every admissible set)', st, summ)
+    st, summ = api['run_tlc_to_harness'](ctx, 'tsweep', 'GenTSweep', cfg(constants={'Emit': 'TRUE', 'Prop': '"C03"', 'Only': '{"err-", "chain-", "s-", "sl-", "stride-"}', 'To': 9000 if thorough else 1100}),
                                          timeout=1500, harness_args=['-timeout', '600s'])
     acc.add('GenTSweep failing-call families: pad strings p.w^n (w of 1-4 bytes, 4 alignment prefixes, literal or from the document), function and '
             'variable names of n letters, n surplus arguments, type and value faults on inputs of size n, for every n = 0..%d -- the error of every '
             'failing call is formatted (Error()) before the case passes; plus the string and operator-run families' % (9000 if thorough else 1100), st, summ)
+    tv = api['run_trace_validation'](ctx, 'mutation-traces', 6000 if thorough else 1500, ctx['seed'] + 101, corpus=False, mode='mutate')
+    acc.add_traces('trace validation: randomly grown expressions with one to three small edits (mostly outside the grammar) run through the real Search and '
+                   'checked by TLC; a panic is recorded as an outcome no set admits', tv)
     return acc.result('a case passes when Compile / Search / Expression.Search return normally (value or error, error formats, no panic, no fatal '
                       'runtime error, no hang); cases run in child processes so that a crash or hang is attributed to its input; non-trivial = '
                       'the specification also pins the outcome', level='model_checking')
